@@ -30,6 +30,16 @@ var repoDir = "/repo"
 
 var replayTemplates = []*replayTemplate{
 	{
+		name: "xstar_resize_pending_recv.go.tmpl",
+		match: func(o *Obligation) bool {
+			return (o.Kind == "site" || o.Kind == "contract") && o.Func == "(*protocol/xstar.socket).RecvMsg" && strings.Contains(o.Note, "sizeq")
+		},
+		run: func(g *Gen, o *Obligation, model map[string]string) (bool, string) {
+			// fixed history: Recv pending (2 s deadline), SetOption(ReadQLen, 10), one message from a peer
+			return runReplay("protocol/xstar", "xstar_resize_pending_recv.go.tmpl", map[string]string{}, "TestZZReplayXStarResizePendingRecv")
+		},
+	},
+	{
 		name: "core_negative_reconnect.go.tmpl",
 		match: func(o *Obligation) bool {
 			return o.Kind == "post" && o.Func == "(*internal/core.socket).SetOption" && strings.Contains(o.Note, "ReconnectTime ==>") && strings.Contains(o.Note, "int_of(value) >= 0")
